@@ -74,7 +74,7 @@ def mix_scenario(cls, use_ste):
     if cls in ("quantized_bits", "quantized_linear", "quantized_po2"):
       sur = xe
     elif cls == "quantized_relu_po2":
-      sur = None
+      sur = z3.If(xe >= 0, xe, z3.RealVal(0))     # relu surrogate (no slope, no max_value in this case)
     else:
       n = bits - (1 if cls.endswith("leaky") else 0)
       top = P(integer) - P(integer - n)
@@ -94,6 +94,17 @@ def mix_scenario(cls, use_ste):
       c01.rnd_axiom(ip, p)
       s.hints.extend([n, integer, n - integer, integer - n])
       s.claim("f1", v1 == val)
+    elif cls in ("quantized_po2", "quantized_relu_po2"):
+      from . import c03
+      relu = cls == "quantized_relu_po2"
+      eff = bits - (0 if relu else 1) - 1
+      emin, emax = -I.IPOW2(eff), I.IPOW2(eff) - 1
+      mag = z3.If(xe >= 0, xe, z3.RealVal(0) if relu else -xe)
+      e, _, _ = c03.spec_exp(ip, mag, None, emin, emax, "rnd")
+      sgn = z3.RealVal(1) if relu else z3.If(xe >= 0, z3.RealVal(1), z3.RealVal(-1))
+      s.hints.extend([eff])
+      s.seeds.append(I.LOG2(c03.EPS))
+      s.claim("f1", v1 == sgn * P(e))
     elif spec_builder:
       _, spec = spec_builder(ip, Scen())
       sp = spec(ip, xe)
@@ -299,7 +310,8 @@ def cases(tier):
       if cls == "quantized_linear" and not ste:
         continue
       out.append(Case(PROP, Q.QF + cls.replace("_leaky", "") + ".__call__", "mix_%s_%s" % (cls, "ste" if ste else "noste"),
-                      mix_scenario(cls, ste), bounds=bounds, replay_kind="c07_mix", assumptions=ASSUME, lo=-12, hi=12))
+                      mix_scenario(cls, ste), bounds=bounds, replay_kind="c07_mix", assumptions=ASSUME,
+                      lo=-130 if "po2" in cls else -12, hi=130 if "po2" in cls else 12))
   for cls in ("quantized_bits", "quantized_relu", "quantized_po2"):
     for mode in ("float", "var_build_then_update", "var_update_then_build", "var_autobuild"):
       out.append(Case(PROP, "qkeras/base_quantizer.py::BaseQuantizer.update_qnoise_factor", "%s_%s" % (cls, mode),
